@@ -8,6 +8,20 @@ ROOT = os.path.dirname(os.path.dirname(os.path.abspath(__file__)))
 
 # id -> (category, technique, text, note, design_ref)
 CHECKS = {
+    "C04": (
+        "exploration",
+        "reference-interpreter monitor (rendered classes in first-appearance order) on the parsed delivered document and on the decoded loader JSON; three delivery routes compared",
+        "6k (quick) / 80k (thorough) E1 programs decorated with js/css/Media (shared files, inheritance, dict css, blank js; class names ASCII / non-ASCII / dashed / dotted), wrapped as head+body pages with or without dependency placeholders or bare, are delivered in document and fragment mode through render_dependencies(), the middleware and Component.render(); inline script/style tokens must be exactly those of the rendered classes, once, in order; Media URLs once each; nothing from unrendered classes; no marker/placeholder left; fragment JSON must declare the same set.",
+        "html.parser + base64/JSON decoding are the trusted readers; bare pages are judged only for leftovers (nowhere to insert).",
+        "DESIGN.md §2 C04",
+    ),
+    "C19": (
+        "exploration",
+        "history monitor: every endpoint URL announced by a render is fetched with django.test.Client right after that render, across histories with cache clears and class re-use, under two cache backends; request-path/method fuzz",
+        "2k (quick) / 40k (thorough) histories of 3-8 document/fragment renders with media-cache clears in between, under the default LocMem cache and a named Django cache: each announced component URL must answer 200 with exactly that class's js/css and the matching content type, and the set of served codes must equal the rendered classes' codes; 3k / 100k fuzzed paths (unknown hashes, kinds, input hashes, dots/colons, all HTTP methods) must give 404/405, never 5xx or component code.",
+        "Eviction between a render and the fetch of its URLs is out of the quantifier.",
+        "DESIGN.md §2 C19",
+    ),
     "C14": (
         "exploration",
         "reference-interpreter monitor on parsed final HTML: per element occurrence the set of data-djc-id markers vs the instances for which the element is top-level output; id echo links model instances to real ids; deep root chains",
